@@ -241,8 +241,13 @@ func treeFromText(s string) *tree {
 			dec.Token()
 			return t
 		case json.Number:
-			n, _ := strconv.Atoi(string(x))
+			n, err := strconv.Atoi(string(x))
+			if err != nil {
+				return &tree{K: "lit", S: string(x)}
+			}
 			return &tree{K: "num", N: n}
+		case bool:
+			return &tree{K: "lit", S: strconv.FormatBool(x)}
 		case string:
 			return &tree{K: "str", S: x}
 		}
